@@ -7,8 +7,10 @@
 //! Exit status: 0 the property held on everything explored (known findings
 //! included), 1 at least one unlisted violation, 2 harness or usage error.
 
+mod c09;
 mod c13;
 mod framework;
+mod model;
 mod refdigest;
 mod rng;
 mod seams;
@@ -138,6 +140,7 @@ fn main() {
         write_evidence,
     };
     let code = match prop.as_str() {
+        "C09" => dispatch(&c09::C09, &opts, replay_file),
         "C13" => dispatch(&c13::C13, &opts, replay_file),
         _ => {
             eprintln!("pkgsim: unknown or unclaimed property {}", prop);
